@@ -362,6 +362,8 @@ def any_spec(draw, depth, sat, opts):
         # replaced by `...` or by an accept-all schema, one flag toggled, one bound moved ...)
         from .props.c15 import _variant
         twin = _variant(draw, alts[0])
+        if twin is not None and not opts.get("alias") and any(n["t"] == "alias" for n, _ in walk(twin)):
+            twin = None
         if twin is not None:
             alts.insert(draw(st.integers(0, len(alts))), twin)
     return {"t": "any", "alts": alts}
